@@ -731,7 +731,9 @@ func inParseFloat(fr *frame, a []value) value {
 	}
 	I.x.noteSym()
 	bs := []value(s)
-	if len(bs) <= 15 && len(bs) > 0 && I.x.branch(digitsOnly(bs)) {
+	// a string of up to 18 digits is an int64; ParseFloat rounds it to the nearest float64 (ties to
+	// even) exactly as the conversion float64(int64) does
+	if len(bs) <= 18 && len(bs) > 0 && I.x.branch(digitsOnly(bs)) {
 		I.fpUsed = true
 		return tuple{fromTerm(mkSIToFP(hornerDigits(bs)), types.Float64), iface{}}
 	}
